@@ -666,11 +666,14 @@ class TLSConnection(TLSRecordLayer):
         # After having previously sent a ClientKeyExchange, the client now
         # initiates an exchange of Finished messages.
         # socket buffering is turned off in _clientFinished
+        ticket_announced = serverHello.getExtension(
+            ExtensionType.session_ticket) is not None
         for result in self._clientFinished(premasterSecret,
                             clientHello.random,
                             serverHello.random,
                             cipherSuite, settings.cipherImplementations,
-                            nextProto, settings):
+                            nextProto, settings,
+                            expect_new_session_ticket=ticket_announced):
                 if result in (0, 1): yield result
                 else: break
         masterSecret = result
@@ -1149,6 +1152,12 @@ class TLSConnection(TLSRecordLayer):
                     AlertDescription.protocol_version,
                     "Too new version: {0} (max: {1})"
                     .format(real_version, settings.maxVersion)):
+                yield result
+        if real_version > (3, 3) and not self._defragmenter.is_empty():
+            # the check in _getMsg ran before the version was known
+            for result in self._sendError(
+                    AlertDescription.unexpected_message,
+                    "ServerHello not aligned with record boundary"):
                 yield result
         if real_version > (3, 3) and \
                 serverHello.session_id != clientHello.session_id:
@@ -1857,8 +1866,11 @@ class TLSConnection(TLSRecordLayer):
                                     settings.cipherImplementations)
 
             #Exchange ChangeCipherSpec and Finished messages
-            for result in self._getFinished(session.masterSecret,
-                                            session.cipherSuite):
+            ticket_announced = serverHello.getExtension(
+                ExtensionType.session_ticket) is not None
+            for result in self._getFinished(
+                    session.masterSecret, session.cipherSuite,
+                    expect_new_session_ticket=ticket_announced):
                 yield result
             # buffer writes so that CCS and Finished go out in one TCP packet
             self.sock.buffer_writes = True
@@ -2112,7 +2124,7 @@ class TLSConnection(TLSRecordLayer):
 
     def _clientFinished(self, premasterSecret, clientRandom, serverRandom,
                         cipherSuite, cipherImplementations, nextProto,
-                        settings):
+                        settings, expect_new_session_ticket=False):
 
         masterSecret = self._calculate_master_secret(premasterSecret,
                                                      cipherSuite,
@@ -2129,9 +2141,9 @@ class TLSConnection(TLSRecordLayer):
         for result in self.sock.flush_async():
             yield result
         self.sock.buffer_writes = False
-        for result in self._getFinished(masterSecret,
-                                        cipherSuite,
-                                        nextProto=nextProto):
+        for result in self._getFinished(
+                masterSecret, cipherSuite, nextProto=nextProto,
+                expect_new_session_ticket=expect_new_session_ticket):
             yield result
         yield masterSecret
 
@@ -4280,6 +4292,12 @@ class TLSConnection(TLSRecordLayer):
         # a new client hello
         if version > (3, 3):
             self.version = version
+            if not self._defragmenter.is_empty():
+                # the check in _getMsg ran before the version was known
+                for result in self._sendError(
+                        AlertDescription.unexpected_message,
+                        "ClientHello not aligned with record boundary"):
+                    yield result
             hrr_ext = []
 
             # check if we have good key share
@@ -5096,47 +5114,49 @@ class TLSConnection(TLSRecordLayer):
         self.sock.buffer_writes = False
 
     def _getFinished(self, masterSecret, cipherSuite=None,
-                     expect_next_protocol=False, nextProto=None):
+                     expect_next_protocol=False, nextProto=None,
+                     expect_new_session_ticket=False):
 
-        expect_ccs_message = True
-        # If we use SessionTicket resumption on client side, there are multiple
-        # situations where the server has the option to send new ticket
-        for result in self._getMsg(
-                (ContentType.handshake, ContentType.change_cipher_spec),
-                HandshakeType.new_session_ticket):
-            if result in (0, 1):
-                yield result
-            else: break
-
-        if isinstance(result, NewSessionTicket1_0):
+        # RFC 5077, section 3.3: only a client that saw the session_ticket
+        # extension in ServerHello gets a NewSessionTicket, and then it MUST
+        # get it; a server never gets one
+        if expect_new_session_ticket and self._client:
+            for result in self._getMsg(ContentType.handshake,
+                                       HandshakeType.new_session_ticket):
+                if result in (0, 1):
+                    yield result
+                else: break
             session_ticket = result
             # If we receive new ticket we clear the old ones
             del self.tls_1_0_tickets[:]
             self.tls_1_0_tickets.append(Ticket(session_ticket.ticket,
-                                        session_ticket.ticket_lifetime,
-                                        masterSecret, cipherSuite))
+                                               session_ticket.ticket_lifetime,
+                                               masterSecret, cipherSuite))
 
-        else:
-            assert isinstance(result, ChangeCipherSpec)
-            expect_ccs_message = False
+        # no handshake message is acceptable here (the empty tuple), but keep
+        # the handshake content type expected so that a stray one is answered
+        # with unexpected_message
+        for result in self._getMsg(
+                (ContentType.handshake, ContentType.change_cipher_spec),
+                ()):
+            if result in (0, 1):
+                yield result
+            else: break
+        changeCipherSpec = result
+        assert isinstance(changeCipherSpec, ChangeCipherSpec)
 
-            changeCipherSpec = result
-            if changeCipherSpec.type != 1:
-                for result in self._sendError(
-                        AlertDescription.illegal_parameter,
-                        "ChangeCipherSpec type incorrect"):
-                    yield result
+        if changeCipherSpec.type != 1:
+            for result in self._sendError(AlertDescription.illegal_parameter,
+                                          "ChangeCipherSpec type incorrect"):
+                yield result
 
-        if expect_ccs_message:
-            for result in self._getMsg(ContentType.change_cipher_spec):
-                if result in (0, 1):
-                    yield result
-            changeCipherSpec = result
-
-            if changeCipherSpec.type != 1:
-                for result in self._sendError(AlertDescription.illegal_parameter,
-                                             "ChangeCipherSpec type incorrect"):
-                    yield result
+        # a handshake message must not span the key change
+        if not self._defragmenter.is_empty():
+            for result in self._sendError(
+                    AlertDescription.unexpected_message,
+                    "ChangeCipherSpec not aligned with handshake message "
+                    "boundary"):
+                yield result
 
         # Switch to pending read state
         self._changeReadState()
